@@ -188,7 +188,7 @@ func runC19(ctx *common.Ctx) error {
 	}
 	res.Notes = append(res.Notes, fmt.Sprintf("go build -race: %.1fs", time.Since(t0).Seconds()))
 
-	nScen := ctx.Budget(3, 40)
+	nScen := ctx.Budget(3, 12)
 	runMs := 2000
 	if ctx.Tier == "thorough" {
 		runMs = 6000
@@ -203,7 +203,13 @@ func runC19(ctx *common.Ctx) error {
 		os.MkdirAll(dir, 0o755)
 		scen := map[string]interface{}{"seed": seed, "run_ms": runMs, "sessions": 8, "child": "harness/cmd/c19child", "how": fmt.Sprintf("go build -race -tags verif ./cmd/c19child && GORACE=halt_on_error=0 ./c19child -seed %d -run-ms %d -sessions 8 -out DIR", seed, runMs)}
 		ctx.Current(fmt.Sprintf("scenario seed=%d", seed), scen)
-		cmd := exec.Command(bin, "-seed", fmt.Sprint(seed), "-out", dir, "-run-ms", fmt.Sprint(runMs), "-sessions", "8")
+		args := []string{"-seed", fmt.Sprint(seed), "-out", dir, "-run-ms", fmt.Sprint(runMs), "-sessions", "8"}
+		if i%3 == 1 { // one scenario in three runs gluon with its log statements formatted (logrus at debug level)
+			args = append(args, "-debuglog")
+			scen["debuglog"] = true
+			scen["how"] = scen["how"].(string) + " -debuglog"
+		}
+		cmd := exec.Command(bin, args...)
 		cmd.Env = append(os.Environ(), "GORACE=halt_on_error=0 exitcode=0 history_size=3 log_path="+filepath.Join(dir, "race"))
 		var stderr strings.Builder
 		cmd.Stderr = &stderr
